@@ -20,6 +20,14 @@ PROPS = {
         "trusted": ["isize::unsigned_abs = Int.natAbs, `x as usize` = two's complement (Prelude)"],
         "assumptions": ["Coh for the matrix indexed (C01)"],
     },
+    "C08": {
+        "module": "Matreex.Props.C08", "harness": "C08",
+        "technique": "Lean 4 theorems over unbounded naturals about the regenerated size/capacity decision code (T2) + table theorem over the re-extracted check/allocation order of all 17 allocating functions (T1) + correspondence on the boundary grid",
+        "trusted": ["Vec::with_capacity / vec! / resize_with modelled as panic('capacity overflow') above isize::MAX bytes and otherwise as success (the allocator itself is not modelled)",
+                    "translate/t1.py alloc_order: regex extraction of the order of `ensure_*conformable(..)?`, `try_to_axis_shape(..)?`, `check_size(..)?` and vector-producing calls in the 17 function bodies",
+                    "predicted-Ok calls larger than 4096 elements are not executed (decision covered by the hooks wrappers on the full grid and by the theorems)"],
+        "assumptions": ["CapacityOverflow inputs for the row conversions with sized elements cannot physically exist; that branch is covered by the T1 table theorem only"],
+    },
 }
 
 LEVEL_TEXT = ("Machine-checked Lean 4 theorems, for all inputs the property quantifies over, about a model whose integer core is "
